@@ -24,6 +24,10 @@ EXPLANATION = (
     "variant is decided under C16.c. NOT decided: pandas' IntervalIndex.get_indexer semantics for touching left-closed intervals "
     "and the exact run arithmetic (library semantics)."
 )
+# obligations added during the build phase (seeding rounds, twins, mutation analysis)
+ADDED_IN_BUILD = " Also: (f) SPEC-EQ - the expressions that reach the formatters equal spec/dense.py as normalised by the same engine (X.index[M] after reset_index(drop=True) and X.columns[M] after `columns = range(...)` are read as np.flatnonzero(M)); the subset converter reports column POSITIONS (column-positions); the neighbour comparison never uses a circular shift (np.roll: no-wrap-around); DENSE-FILL is decided for three spellings (padded bounds list, two parallel lists, scatter + cumsum with an entailment test of its filter); every call of sktime's check_series passes allow_index_names=True so the index handed to sparse_to_dense keeps its names (C11.b re-run)."
+EXPLANATION = EXPLANATION + ADDED_IN_BUILD
+
 ASSUMPTIONS = [
     "Python's ast module and evaluation-order/argument-binding semantics as implemented in skverif/symex.py",
     "library model table skverif/models.py: np.flatnonzero/np.arange/enumerate give positions; .index of a frame gives labels unless reset_index(drop=True) was applied; IntervalIndex(...).get_indexer(q) looks q up in the intervals",
